@@ -175,6 +175,18 @@ def load_ast(root=None, extra_files=()):
 VOCAB = os.path.join(os.path.dirname(os.path.abspath(__file__)), "vocab.json")
 
 
+def fn_signature(node):
+    """parameter and result types of a function, names removed (used to recognise a renamed function)"""
+    ins = []
+    for p_ in node["sig"]["inputs"]:
+        if p_["t"] == "Receiver":
+            ins.append(("&" if p_.get("ref") else "") + ("mut " if p_.get("mut") else "") + "self")
+        else:
+            ins.append(p_["ty"]["s"].replace(" ", ""))
+    out = node["sig"]["output"]["s"].replace(" ", "") if node["sig"].get("output") else ""
+    return "(" + ",".join(ins) + ")->" + out
+
+
 def look_through(a, prefix=""):
     """Helper functions that are not in the vocabulary the rules were confirmed against (lib/vocab.json) are inlined at
     their call sites (lib/pm.py inline_helpers), so that extracting lines into a new private helper leaves what the rules
@@ -196,6 +208,13 @@ def look_through(a, prefix=""):
         known = set(known)
         fns = [f for f in allf if f["path"] == path]
         new = [f for f in fns if (f["container"] + "::" + f["name"]) not in known and not is_test_item(f) and f["node"].get("body")]
+        # a function of the vocabulary that has vanished while a new one with the same container and signature appeared
+        # has been renamed: it stays visible (the rules find private helpers by role)
+        sigs = vocab.get("sig:" + prefix + path, {})
+        present = {f["container"] + "::" + f["name"] for f in fns}
+        vanished = {k: v for k, v in sigs.items() if k not in present}
+        renamed = [f for f in new if any(k.rsplit("::", 1)[0] == f["container"] and v == fn_signature(f["node"]) for k, v in vanished.items())]
+        new = [f for f in new if not any(f is r for r in renamed)]
         if not new:
             continue
         new_names = {f["name"] for f in new}
